@@ -235,3 +235,50 @@ Proof.
 Qed.
 Lemma example_converge : rounds 1 ex_env ex_item = rounds 4 ex_env ex_item /\ req (rounds 1 ex_env ex_item) = Completed.
 Proof. vm_compute. split; reflexivity. Qed.
+
+(* ---- C08: the index keeps agreeing with storage across every complete task ---- *)
+Lemma task_script_ind (P : list mop -> Prop) e b i t :
+  task_pre t i = true ->
+  P (check_src_script i) -> P (check_dst_script i) -> P [ReqSet Cancelled] -> P [] ->
+  (already_in_group (dst_state i) = false -> P mark_suspect_script) ->
+  (wants_eqb (wants_of i) WN = true -> P (delete_script i)) ->
+  (src_has i = HY -> P (pull_script (rt e) (te e) b i)) ->
+  P (task_script e b i t).
+Proof.
+  intros Hp P1 P2 P3 P4 P5 P6 P7.
+  assert (Hy : match t with TSearchPull | TPullForce => src_has i = HY | _ => True end).
+  { destruct t; cbn in Hp |- *; auto; destruct (src_has i); try discriminate; reflexivity. }
+  destruct t; cbn [task_script].
+  - exact P1.
+  - exact P2.
+  - destruct (del_ok e); [apply P6; exact Hp | exact P4].
+  - unfold group_search. destruct (already_in_group (dst_state i)) eqn:Ea; [exact P3|].
+    destruct (dst_disk i); [apply P5; reflexivity|]. unfold pull_gate. destruct (gate_ok e); [apply P7, Hy | exact P4].
+  - unfold pull_gate. destruct (gate_ok e); [apply P7, Hy | exact P4].
+Qed.
+Definition f_run_pull (i : item) : bool := if safe i && is_y (src_has i) then forallb (fun r => forallb (fun e => forallb (fun b =>
+   safe (run (pull_script r e b i) i)) all_beh) all_tenv) all_route else true.
+Lemma chk_run_pull_true : forallb f_run_pull all_items = true. Proof. vm_cast_no_check (eq_refl true). Qed.
+Definition f_run_simple (i : item) : bool := if safe i then
+   safe (run (check_src_script i) i) && safe (run (check_dst_script i) i) && safe (run [ReqSet Cancelled] i) && safe (run [] i)
+   && (if already_in_group (dst_state i) then true else safe (run mark_suspect_script i))
+   && (if wants_eqb (wants_of i) WN then safe (run (delete_script i) i) && gone (run (delete_script i) i) else true) else true.
+Lemma chk_run_simple_true : forallb f_run_simple all_items = true. Proof. vm_cast_no_check (eq_refl true). Qed.
+Lemma task_run_safe e b i t : safe i = true -> task_pre t i = true -> safe (run_task e b i t) = true.
+Proof.
+  intros Hs Hp. unfold run_task.
+  pose proof (fa f_run_simple all_items i chk_run_simple_true (in_all_items i)) as H. unfold f_run_simple in H. rewrite Hs in H.
+  apply andb_true_iff in H as [H Hdel]. apply andb_true_iff in H as [H Hmark]. apply andb_true_iff in H as [H Hnil].
+  apply andb_true_iff in H as [H Hcancel]. apply andb_true_iff in H as [Hcs Hcd].
+  apply (task_script_ind (fun l => safe (run l i) = true) e b i t Hp); auto.
+  - intros Ea. rewrite Ea in Hmark. exact Hmark.
+  - intros Ew. rewrite Ew in Hdel. apply andb_true_iff in Hdel. apply Hdel.
+  - intros Hy. pose proof (fa f_run_pull all_items i chk_run_pull_true (in_all_items i)) as G. unfold f_run_pull in G. rewrite Hs, Hy in G. cbn [is_y has_eqb andb] in G.
+    exact (fa _ _ b (fa _ _ (te e) (fa _ _ (rt e) G (in_all_route _)) (in_all_tenv _)) (in_all_beh _)).
+Qed.
+(* a copy the daemon records as removed is gone from disk *)
+Lemma delete_leaves_nothing i : safe i = true -> wants_of i = WN -> gone (run (delete_script i) i) = true.
+Proof.
+  intros Hs Hw. pose proof (fa f_run_simple all_items i chk_run_simple_true (in_all_items i)) as H. unfold f_run_simple in H. rewrite Hs, Hw in H.
+  cbn [wants_eqb] in H. apply andb_true_iff in H as [_ H]. apply andb_true_iff in H. apply H.
+Qed.
